@@ -33,6 +33,9 @@ pub enum Alt {
     ValueExtend,
     ValueTruncate,
     HashFlip(Sect, usize, usize, u8),
+    /// move one byte from the hash of a node to the hash of its sibling that follows it in the
+    /// list (the concatenation that a parent hash covers stays the same)
+    HashShift(Sect, usize),
     SigFlip(usize, u8),
     SigTruncate,
     SigEmpty,
@@ -62,6 +65,7 @@ impl Alt {
             Alt::ValueExtend => "value-extend".into(),
             Alt::ValueTruncate => "value-truncate".into(),
             Alt::HashFlip(s, ..) => format!("hash-flip:{}", s.name()),
+            Alt::HashShift(s, _) => format!("hash-shift:{}", s.name()),
             Alt::SigFlip(..) => "sig-flip".into(),
             Alt::SigTruncate => "sig-truncate".into(),
             Alt::SigEmpty => "sig-empty".into(),
@@ -92,6 +96,7 @@ impl Alt {
                 | Alt::ValueExtend
                 | Alt::ValueTruncate
                 | Alt::HashFlip(..)
+                | Alt::HashShift(..)
                 | Alt::SigFlip(..)
                 | Alt::SigTruncate
                 | Alt::SigEmpty
@@ -163,6 +168,23 @@ pub fn apply(p: &Proof, a: &Alt) -> Option<Proof> {
             let bi = byte % h.len();
             h[bi] ^= 1 << (bit % 8);
             v[i] = renode(&n, n.index(), n.len(), h);
+        }
+        Alt::HashShift(s, pos) => {
+            let v = nodes_mut(&mut q, *s)?;
+            if v.len() < 2 || *pos + 1 >= v.len() {
+                return None;
+            }
+            let (a, b) = (v[*pos].clone(), v[*pos + 1].clone());
+            if crate::refimpl::ft_sibling(a.index()) != b.index() || a.hash().len() != 32 || b.hash().len() != 32 {
+                return None;
+            }
+            // left node (lower index) gets one byte more, right node one byte less
+            let (l, r, li, ri) = if a.index() < b.index() { (a.clone(), b.clone(), *pos, *pos + 1) } else { (b.clone(), a.clone(), *pos + 1, *pos) };
+            let mut lh = l.hash().to_vec();
+            let mut rh = r.hash().to_vec();
+            lh.push(rh.remove(0));
+            v[li] = renode(&l, l.index(), l.len(), lh);
+            v[ri] = renode(&r, r.index(), r.len(), rh);
         }
         Alt::SigFlip(byte, bit) => {
             let u = q.upgrade.as_mut()?;
@@ -330,6 +352,7 @@ pub fn alterations(p: &Proof, r: &mut Rng, bits: usize) -> Vec<Alt> {
             v.push(Alt::NodeDup(s, pos));
             if pos + 1 < nodes.len() {
                 v.push(Alt::NodeSwap(s, pos));
+                v.push(Alt::HashShift(s, pos));
             }
         }
         for pos in 0..=nodes.len() {
